@@ -200,6 +200,33 @@ def check_minimal_medium(ctx, rule: str) -> None:
                             problems.setdefault("medium", f"{what}: returns {got_med}; the import fluxes of the solver's answer are {want_med}" + (" (exports as negative entries)" if exports else ""))
                     if model._stack or any((r.lower_bound, r.upper_bound) != model.original_bounds[r.id] for r in model.reactions) or model.solver.objective.name != "original_objective" or model.solver.constraints.items or model.solver.objective.direction != "max":
                         problems.setdefault("restore", f"{what}: the model is left modified")
+    # ---- alternative media: every column has the smallest possible number of components
+    alt_bad = None
+    for asked, counts, want_cols in ((3, [2.0, 2.0, 2.0, 3.0], 2), (2, [2.0, 2.0, 2.0], 2), (4, [1.0, 1.0, 2.0, 2.0, 2.0], 1)):
+        model = _model(True)
+        seq = list(counts)
+        base = model.script
+
+        def script(m, f, _seq=seq, _base=base):
+            v, fluxes, status = _base(m, f)
+            return (_seq.pop(0) if _seq else 99.0), fluxes, status
+
+        model.script = script
+        it = Interp(prog, NATIVE, FOLLOW, {"cobra.medium.boundary_types.find_boundary_types": lambda it_, ev, c, a, k: list(a[0].exchanges)}, globals_={"Zero": Lin(), "OPTIMAL": "optimal"})
+        what = f"minimal_medium(minimize_components={asked}) when the solver finds media of {counts[1:]} components after a best of {counts[0]:g}"
+        try:
+            out = _run(what, lambda: it.call(fn, [model], {"min_objective_value": 0.25, "minimize_components": asked}))
+        except EvalRaise as exc:
+            alt_bad = f"{what} raises {exc.exc_type}"
+            break
+        ncols = len(out.cols) if isinstance(out, Frame) else (1 if isinstance(out, Ser) else 0)
+        if ncols != want_cols:
+            alt_bad = f"{what} returns {ncols} media, expected {want_cols}: an alternative with more components than the smallest medium is not a smallest medium"
+            break
+    if alt_bad:
+        ctx.bad(rule, fn, "minimal_medium alternatives", alt_bad)
+    else:
+        ctx.ok(rule, fn, "minimal_medium alternatives", "3 scenarios: alternatives are collected only while they have the smallest number of components")
     for clause, target, text in (("problem", fn, "the only restriction added is objective >= min_objective_value"), ("objective", lin, "linear: minimise the sum of the import variables; MIP: import <= M x binary indicator, minimise the number of indicators"),
                                  ("bigm", mip, "M is at least every import bound in force"), ("open", fn, "exchanges opened to +-bound only when asked (True = 1000, a number = that number), other reactions untouched"),
                                  ("medium", asm, "medium = import fluxes above the tolerance (exports negative when asked), by the orientation of each exchange"), ("none", fn, "None exactly when the solver reports no optimum"),
@@ -208,3 +235,63 @@ def check_minimal_medium(ctx, rule: str) -> None:
             ctx.bad(rule, target, f"minimal_medium {clause}", problems[clause])
         else:
             ctx.ok(rule, target, f"minimal_medium {clause}", f"{n} scenarios x {len(EX)} exchange classes: {text}")
+
+
+# ---------------------------------------------------------------------------------------- Model.medium
+# id: (written as `met <=>`?, bounds before, value assigned or None when not listed)
+MED = {
+    "EX_a": (True, (-10.0, 1000.0), 3.5),
+    "EX_b": (False, (-1000.0, 20.0), 0),        # listed with an explicit zero: import closed
+    "EX_c": (True, (-5.0, 1000.0), None),       # not listed: import closed, export untouched
+    "EX_d": (False, (0.0, 7.0), 12.0),
+    "EX_e": (True, (0.0, 1000.0), None),        # import already closed
+    "EX_f": (True, (2.0, 10.0), None),          # forced export: stays as it is
+    "EX_g": (False, (-30.0, 40.0), None),       # written the other way round, not listed
+    "EX_h": (True, (-8.0, 0.0), 0.0),           # explicit float zero
+}
+
+
+def check_medium_property(ctx, rule: str) -> None:
+    prog = ctx.prog
+    setter = prog.func("cobra.core.model", "Model.medium", setter=True)
+    getter = prog.func("cobra.core.model", "Model.medium")
+    rxns = []
+    for rid, (as_reactant, b, _) in MED.items():
+        r = RxnLP(rid, *b)
+        r.boundary = True
+        r.reactants = [_Met(rid[3:])] if as_reactant else []
+        r.products = [] if as_reactant else [_Met(rid[3:])]
+        rxns.append(r)
+    model = ModelLP(rxns, {"EX_a": 1.0})
+    model.exchanges = list(rxns)
+    it = Interp(prog, NATIVE, [], {}, globals_={})
+    medium = {rid: v for rid, (_, _, v) in MED.items() if v is not None}
+    # the model stand-in has a modelled `medium` of its own; evaluate the real property functions on it
+    try:
+        _run("Model.medium setter", lambda: it.call(setter, [dict(medium)], {}, selfobj=model))
+        back = _run("Model.medium getter", lambda: it.call(getter, [], {}, selfobj=model))
+    except EvalRaise as exc:
+        ctx.bad(rule, setter, "medium assignment", f"assigning {medium} raises {exc.exc_type}")
+        return
+    problems = []
+    for rid, (as_reactant, (lb, ub), v) in MED.items():
+        r = model.reactions.get_by_id(rid)
+        if v is not None:
+            want = (-float(v), ub) if as_reactant else (lb, float(v))
+            why = f"listed with {v!r}: its import bound becomes {v!r}"
+        else:
+            imp = max(-lb, 0.0) if as_reactant else max(ub, 0.0)
+            want = ((lb if imp == 0 else 0.0), ub) if as_reactant else (lb, (ub if imp == 0 else 0.0))
+            why = "not listed: import closed, export untouched"
+        got = (r.lower_bound, r.upper_bound)
+        if tuple(map(float, got)) != tuple(map(float, want)):
+            problems.append(f"{rid} ({'met <=>' if as_reactant else '<=> met'}, bounds {lb:g}..{ub:g}, {why}) ends with bounds {got}, expected {want}")
+    want_back = {rid: float(v) for rid, (_, _, v) in MED.items() if v is not None and v > 0}
+    if isinstance(back, dict):
+        back = {k: float(x) for k, x in back.items()}
+    if back != want_back:
+        problems.append(f"reading the medium back gives {back}, expected exactly the entries with positive import {want_back}")
+    if problems:
+        ctx.bad(rule, setter, "medium assignment", "; ".join(problems[:2]))
+    else:
+        ctx.ok(rule, setter, "medium assignment", f"{len(MED)} exchange classes: listed exchanges get the given import bound (explicit zeros included), the others have their import closed, export bounds untouched, get(set(m)) = positive entries of m")
